@@ -9,7 +9,7 @@ import c20_impl
 
 RULE = ("fresh interpreters (one subprocess per sequence): all 13 first-imports (the package and its 12 modules), all 156 ordered pairs (quick: a seeded sample of 60), random permutations of all "
         "13 and random shorter sequences with repetitions; each dumps success / exception class and, per loaded module, the public names with an identity label (smallest 'module.name' bound to "
-        "the same object) and, for names bound to plain data (tuples, dicts, strings, numbers, with package classes inside named by qualified name), a digest of the value; judged (a) against the model's prediction run on the import programs regenerated from the source and (b) on the implementation alone: every import succeeds and every "
+        "the same object) and, for names bound to plain data (tuples, dicts, strings, numbers, with package classes, enum members and package-class instances inside named by qualified name), a digest of the value; judged (a) against the model's prediction run on the import programs regenerated from the source and (b) on the implementation alone: every import succeeds and every "
         "loaded module shows exactly the names, identities and data values it shows when the same set of modules is imported in sorted order. Non-trivial: sequences of >= 2 modules or a first import of a module that takes part in the "
         "track/instrument/sync/globalevents cycle; distinct by sequence")
 ASSUMPTIONS = ["the abstract import protocol of Model/Imports.v is CPython's (validated by this correspondence; the theorem is about the model)",
